@@ -47,17 +47,35 @@ def canonical(spec, outcome, trace, b):
     return {"outcome": "ok", "times": times, "series": series, "infos": infos}
 
 
+def _run(spec):
+    """a slot memory limit needs a directory for the spill files (removed again whatever the outcome)"""
+    if spec.get("mem_limit") is None:
+        return S.run(spec)
+    import shutil
+    import tempfile
+
+    d = tempfile.mkdtemp(prefix="vf-c05-")
+    try:
+        return S.run(spec, mem_loc=d)
+    finally:
+        shutil.rmtree(d, ignore_errors=True)
+
+
 def check(case, ctx):
     spec = case["spec"]
     names = [c["name"] for c in spec["comps"]]
     nl = len(spec["links"])
+    if spec.get("mem_limit") is not None:
+        ctx.event("with-slot-memory-limit")
+    if any(c.get("no_pull") for c in spec["comps"]):
+        ctx.event("input-without-initial-pull")
     results = []
     ties = False
     for op, lp in case["perms"]:
         s2 = dict(spec)
         s2["order"] = [names[i % len(names)] for i in _perm(op, len(names))]
         s2["links"] = [spec["links"][i] for i in _perm(lp, nl)]
-        outcome, msg, trace, b = S.run(s2)
+        outcome, msg, trace, b = _run(s2)
         if outcome == "HarnessBound":
             ctx.violation("unbounded-run", msg)
             return
@@ -113,6 +131,14 @@ def case_st(k):
             G.dag_spec(kinds=KINDS),
             G.ring_spec(modes=["none", "suff", "suff_split", "suff_multi", "partial", "partial"]),
         ))
+        # optional: a small slot memory limit (scalar payloads are 8 bytes: 1-5 data sets stay in RAM, the rest is
+        # spilled) and consumers' inputs that do not pull during connect - neither may make the order matter
+        if draw(st.integers(0, 3)) == 0:
+            spec["mem_limit"] = draw(st.sampled_from([8, 16, 24, 40]))
+        if draw(st.integers(0, 2)) == 0 and not spec.get("mode"):
+            for c in spec["comps"]:
+                if c["kind"] == "model" and c["ins"]:
+                    c["no_pull"] = [n for n in c["ins"] if draw(st.integers(0, 2)) == 0]
         perms = [[[], []], [[-1], [-1]]]
         for _ in range(k - 2):
             perms.append([draw(st.lists(st.integers(0, 7), max_size=8)), draw(st.lists(st.integers(0, 11), max_size=12))])
